@@ -7,7 +7,7 @@ and the per-name configuration map.  The option/config cube is enumerated by spe
 import itertools
 import random
 
-from harness import common, gen, b09lex, decblex
+from harness import common, gen, b09lex, decblex, positions
 
 PID = "C10"
 # (use class, lines); {X} is the variable base name under test
@@ -42,6 +42,24 @@ NUM_USES = [
     ("joystick", ["10 Z=JOYSTK(0)"]), ("hbuff", ["10 HBUFF 1,100"]),
     ("two-implicit", ["10 D(1)=1:E(2)=2:F$(3)=\"A\""]), ("dim-after-use-of-other", ["10 A=1", "20 DIM C(2)", "30 C(1)=A"]),
 ]
+STR_USES += [
+    ("scalar-beside-dimensioned-array-of-one-name", ["10 DIM {X}$(5)", "20 {X}$=\"A\":{X}$(1)={X}$"]),
+    ("scalar-beside-dimensioned-array-of-one-name", ["10 DIM {X}$(5),Q$", "20 Z=LEN({X}$)+LEN({X}$(2))"]),
+    ("scalar-beside-implicit-array-of-one-name", ["10 {X}$(1)=\"A\":{X}$=\"B\""]),
+    ("dimensioned-scalar-beside-implicit-array", ["10 DIM {X}$", "20 {X}$(1)={X}$"]),
+    ("dimensioned-scalar-and-array-of-one-name", ["10 DIM {X}$,{X}$(4)", "20 {X}$(1)={X}$"]),
+]
+NUM_USES += [
+    ("scalar-beside-array-of-one-name", ["10 DIM C(4)", "20 C=1:C(1)=C"]), ("scalar-beside-implicit-array-of-one-name", ["10 D=1:D(1)=D"]),
+]
+# every expression position once with a string scalar, a string array element and an implicit numeric array element in it
+for _nm, _l in positions.STR_POSITIONS:
+    STR_USES.append(("position:" + _nm, positions.fill(_l, "{s}", "{X}$")))
+    if "INPUT" not in _l[0]:
+        STR_USES.append(("position:" + _nm + ":implicit-array", positions.fill(_l, "{s}", "{X}$(2)")))
+for _nm, _l in positions.NUM_POSITIONS:
+    STR_USES.append(("position:" + _nm + ":in-LEN", positions.fill(_l, "{n}", "LEN({X}$)")))
+    NUM_USES.append(("position:" + _nm + ":implicit-array", positions.fill(_l, "{n}", "E(3)")))
 CFG_NAMES = [("X$", False, 100), ("X$", True, 200), ("Y$", False, 300)]
 
 
@@ -58,12 +76,12 @@ def main():
     for use, tpl in STR_USES:
         for X in (["X", "Y", "X9"] if thorough else ["X"]):
             lines = [l.replace("{X}", X) for l in tpl] + ["90 END"]
-            for c in (cube if thorough else gen.sample(rng, cube, 8)):
+            for c in (cube if thorough else gen.sample(rng, [c for c in cube if c[0]], 3) + gen.sample(rng, cube, 1) if use.startswith("position:") else gen.sample(rng, cube, 8)):
                 size = 80 if c[0] else 32
                 cfg = [n for n, bit in zip(CFG_NAMES, c[1:4]) if bit]
                 plan.append({"lines": lines, "use": use, "size": size, "cfg": cfg, "init": bool(c[4]), "prefix": False})
     for use, tpl in NUM_USES:
-        for c in (cube[::2] if thorough else gen.sample(rng, cube, 4)):
+        for c in (cube[::2] if thorough else gen.sample(rng, cube, 2 if use.startswith("position:") else 4)):
             plan.append({"lines": tpl + ["90 END"], "use": use, "size": 80 if c[0] else 32, "cfg": [], "init": bool(c[4]), "prefix": bool(c[1])})
     payload = []
     for p in plan:
